@@ -125,7 +125,10 @@ impl Opts {
 
 const SHARDS: usize = 256;
 
-struct Shared<A> {
+struct Shared<'d, A> {
+    /// states expanded at least once during the whole run (across bounds), for the count of
+    /// distinct (state, action) transitions
+    distinct: &'d Distinct,
     visited: Vec<Mutex<HashMap<u128, u8>>>,
     stop: AtomicBool,
     capped: AtomicBool,
@@ -142,6 +145,28 @@ struct Shared<A> {
     deadline: Instant,
     state_cap: u64,
     states_now: AtomicU64,
+}
+
+pub struct Distinct {
+    expanded: Vec<Mutex<std::collections::HashSet<u128>>>,
+    transitions: AtomicU64,
+    states: AtomicU64,
+}
+impl Distinct {
+    fn new() -> Distinct {
+        Distinct {
+            expanded: (0..SHARDS).map(|_| Mutex::new(Default::default())).collect(),
+            transitions: AtomicU64::new(0),
+            states: AtomicU64::new(0),
+        }
+    }
+    fn first_expansion(&self, key: u128, n_actions: usize) {
+        let mut g = self.expanded[(key as usize) % SHARDS].lock().unwrap();
+        if g.insert(key) {
+            self.transitions.fetch_add(n_actions as u64, Ordering::Relaxed);
+            self.states.fetch_add(1, Ordering::Relaxed);
+        }
+    }
 }
 
 #[derive(Default)]
@@ -168,7 +193,7 @@ fn key_of<M: Hash>(cfg: usize, state: u128, m: &M) -> u128 {
 }
 
 /// returns true when the state must be expanded (not yet explored with that much remaining depth)
-fn visit<A>(sh: &Shared<A>, key: u128, remaining: u8) -> bool {
+fn visit<A>(sh: &Shared<'_, A>, key: u128, remaining: u8) -> bool {
     let shard = &sh.visited[(key as usize) % SHARDS];
     let mut g = shard.lock().unwrap();
     match g.get_mut(&key) {
@@ -190,7 +215,8 @@ fn visit<A>(sh: &Shared<A>, key: u128, remaining: u8) -> bool {
 
 struct Walker<'a, S: Scenario> {
     s: &'a S,
-    sh: &'a Shared<S::A>,
+    sh: &'a Shared<'a, S::A>,
+    trail: Vec<bool>,
     known: &'a Known,
     local: Local,
     cfg: usize,
@@ -209,6 +235,7 @@ impl<'a, S: Scenario> Walker<'a, S> {
     ) -> bool {
         let mut out = StepOut::default();
         self.s.step(ctx, m, a, &mut out);
+        self.trail.push(out.accepted);
         if count {
             self.local.transitions += 1;
             self.local.checks += out.checks;
@@ -219,6 +246,12 @@ impl<'a, S: Scenario> Walker<'a, S> {
             } else {
                 self.local.rejected += 1;
                 e.1 += 1;
+            }
+        }
+        if count && self.local.transitions % 64 == 1 && self.sh.states_now.load(Ordering::Relaxed) < 1_000_000 {
+            let full = self.sh.samples.lock().unwrap().len() >= 4;
+            if !full {
+                self.maybe_sample(path);
             }
         }
         let mut cont = !out.prune;
@@ -271,6 +304,7 @@ impl<'a, S: Scenario> Walker<'a, S> {
             return;
         }
         let acts = self.s.actions(ctx, m);
+        self.sh.distinct.first_expansion(key, acts.len());
         let snap = w.snap();
         for a in acts {
             if self.sh.stop.load(Ordering::Relaxed) {
@@ -285,6 +319,7 @@ impl<'a, S: Scenario> Walker<'a, S> {
                 self.local.traces += 1;
             }
             path.pop();
+            self.trail.pop();
             w.restore(&snap);
         }
     }
@@ -322,7 +357,7 @@ impl<'a, S: Scenario> Walker<'a, S> {
         if g.len() < 4 {
             g.push(serde_json::json!({
                 "config": self.s.config_label(self.cfg),
-                "path": path.iter().map(|a| format!("{:?}", a)).collect::<Vec<_>>(),
+                "path": path.iter().zip(self.trail.iter()).map(|(a, ok)| format!("{} => {}", truncate(&format!("{:?}", a), 300), if *ok { "accepted" } else { "rejected/no-op" })).collect::<Vec<_>>(),
             }));
         }
     }
@@ -353,7 +388,7 @@ struct Item {
 /// Replays a work item's prefix and explores below it.
 fn run_item<S: Scenario>(
     s: &S,
-    sh: &Shared<S::A>,
+    sh: &Shared<'_, S::A>,
     known: &Known,
     item: &Item,
     bound: usize,
@@ -374,6 +409,7 @@ fn run_item<S: Scenario>(
         local: Local::default(),
         cfg: item.cfg,
         bound,
+        trail: vec![],
     };
     let mut m = m0.clone();
     let mut path: Vec<S::A> = vec![];
@@ -389,6 +425,9 @@ fn run_item<S: Scenario>(
             }
         }
         let acts = s.actions(ctx, &m);
+        if owner {
+            sh.distinct.first_expansion(key_of(item.cfg, w.state_hash(), &m), acts.len());
+        }
         if ix >= acts.len() {
             ok = false;
             break;
@@ -414,7 +453,8 @@ fn run_item<S: Scenario>(
 fn make_items<S: Scenario>(s: &S, bound: usize, known: &Known) -> Vec<Item> {
     // split at depth 2 when possible (depth 1 when the bound is 1)
     let mut items = vec![];
-    let dummy: Shared<S::A> = new_shared(Instant::now() + std::time::Duration::from_secs(3600), u64::MAX);
+    let dd = Distinct::new();
+    let dummy: Shared<S::A> = new_shared(&dd, Instant::now() + std::time::Duration::from_secs(3600), u64::MAX);
     for cfg in 0..s.n_configs() {
         let (ctx, m0) = s.build(cfg);
         let w = s.world(&ctx);
@@ -439,6 +479,7 @@ fn make_items<S: Scenario>(s: &S, bound: usize, known: &Known) -> Vec<Item> {
                 local: Local::default(),
                 cfg,
                 bound,
+                trail: vec![],
             };
             let cont = wk.do_step(&ctx, &mut m, a, &vec![a.clone()], false);
             let n = if cont { s.actions(&ctx, &m).len() } else { 0 };
@@ -460,8 +501,9 @@ fn make_items<S: Scenario>(s: &S, bound: usize, known: &Known) -> Vec<Item> {
     items
 }
 
-fn new_shared<A>(deadline: Instant, state_cap: u64) -> Shared<A> {
+fn new_shared<A>(distinct: &Distinct, deadline: Instant, state_cap: u64) -> Shared<'_, A> {
     Shared {
+        distinct,
         visited: (0..SHARDS).map(|_| Mutex::new(HashMap::new())).collect(),
         stop: AtomicBool::new(false),
         capped: AtomicBool::new(false),
@@ -603,10 +645,11 @@ pub fn run<S: Scenario>(s: &S, opts: &Opts) -> Outcome {
     let mut per_bound: Vec<serde_json::Value> = vec![];
     let mut violation: Option<(usize, Vec<S::A>, Mismatch)> = None;
 
+    let distinct = Distinct::new();
     let mut bound = opts.start_depth.max(1).min(opts.max_depth);
     while bound <= opts.max_depth {
         let tb = Instant::now();
-        let sh: Shared<S::A> = new_shared(deadline, opts.state_cap);
+        let sh: Shared<S::A> = new_shared(&distinct, deadline, opts.state_cap);
         let mut items = make_items(s, bound, &known);
         shuffle(&mut items, opts.seed);
         let next = AtomicU64::new(0);
@@ -760,6 +803,9 @@ pub fn run<S: Scenario>(s: &S, opts: &Opts) -> Outcome {
     let cov = serde_json::json!({
         "states": union_states.max(1),
         "transitions": total_transitions.max(1),
+        "evaluations": total_transitions.max(1),
+        "distinct_nontrivial": distinct.transitions.load(Ordering::Relaxed),
+        "distinct_states_expanded": distinct.states.load(Ordering::Relaxed),
         "traces_validated_against_impl": total_traces,
         "model_vs_impl_comparisons": total_checks,
         "samples": samples,
